@@ -115,11 +115,11 @@ def check_pkesk_selection(rep, prog, rid):
             rep.violation(rid, 'PGPKey.decrypt', 'no decrypt_sk call', 'the key never recovers a session key', where=fi.where)
             continue
         t = dsk[0][0][:-len('.decrypt_sk')]
-        _m = re.search(r'for (\w+) in message\._sessionkeys', t)
-        _v = _m.group(1) if _m else 'pk'
-        conj = all(x in t.replace(' ', '') for x in ('message._sessionkeys', 'isinstance(%s,PKESessionKey)' % _v,
-                                                     '%s.pkalg==self.key_algorithm' % _v)) and \
-            any(x in t.replace(' ', '') for x in ('%s.encrypter==self.fingerprint.keyid' % _v, 'self.fingerprint.keyid==%s.encrypter' % _v))
+        _m = re.search(r'EACH\((\$\d+) in message\._sessionkeys if (.*);\1\)', t)
+        _v = _m.group(1) if _m else '$1'
+        _c = (_m.group(2) if _m else '').replace(' ', '')
+        conj = bool(_m) and all(x in _c for x in ('isinstance(%s,PKESessionKey)' % _v, '%s.pkalg==self.key_algorithm' % _v)) and \
+            any(x in _c for x in ('%s.encrypter==self.fingerprint.keyid' % _v, 'self.fingerprint.keyid==%s.encrypter' % _v)) and ' or ' not in _m.group(2)
         rep.check(conj, rid, 'PGPKey.decrypt', 'session-key packet selection %s' % t[:140],
                   'with several recipients the packet used must be the one addressed to this key id (and algorithm)', where=fi.where,
                   expected='isinstance(pk, PKESessionKey) and pk.pkalg == self.key_algorithm and pk.encrypter == self.fingerprint.keyid',
@@ -221,7 +221,7 @@ def check_pubkey_derivation(rep, prog, rid):
                 if c[0] == 'setattr' and len(c[1]) == 3 and c[1][0] == pk + '.keymaterial':
                     got['keymaterial.<%s>' % c[1][1]] = c[1][2]
             want = {'created': ('self.created',), 'pkalg': ('PubKeyAlgorithm.%s' % alg, 'self.pkalg'),
-                    'keymaterial.<pm>': ('copy.copy(getattr(self.keymaterial, pm))', 'getattr(self.keymaterial, pm)')}
+                    'keymaterial.<$1>': ('copy.copy(getattr(self.keymaterial, $1))', 'getattr(self.keymaterial, $1)')}      # $1: the loop's field name
             for k, v in extra.items():
                 want['keymaterial.%s' % k] = v if isinstance(v, tuple) else (v,)
             for k, vals in want.items():
